@@ -26,8 +26,9 @@ def classify_offset(toks):
     consts = {tk[1] for tk in toks if tk[0] == 'const'}
     if 'offset_from_cluster' in calls:
         return 'CLUSTER'
-    if 'offset_from_sector' in calls and 'fs_info_sector' in fields:
-        return 'FSINFO'
+    if ({'offset_from_sector', 'bytes_from_sectors'} & calls) and ('fs_info_sector' in fields or 'fs_info_sector' in calls) and \
+            not ({'offset_from_cluster', 'sectors_from_clusters'} & calls):
+        return 'FSINFO'  # sector number from the BPB field (directly or through its getter), converted to bytes
     if 'pos' in fields and not calls - {'borrow_mut', 'deref_mut'}:
         return 'ENTRY'
     if {0x25, 0x41} <= consts and not (calls - {'fat_type', 'eq', 'borrow_mut', 'deref_mut', 'status_flags', 'get', 'encode'}):
@@ -134,7 +135,7 @@ def run(ctx, rep):
                 toks = d.of_operand(t['args'][1])
                 calls = {tk[1].rsplit('::', 1)[-1] for tk in toks if tk[0] == 'call'}
                 fields = {tk[1] for tk in toks if tk[0] == 'field'}
-                if 'min' in calls and {'size', 'offset'} <= fields and ('op', 'Sub') in toks:
+                if 'min' in calls and {'size', 'offset'} <= fields and (('op', 'Sub') in toks or 'saturating_sub' in calls):
                     ok = True
         rep.oblige('R11.3', name, ok=ok, nontrivial=True)
         if not ok:
